@@ -11,16 +11,46 @@ use tracing_core::{collect::Interest, span, Metadata};
 use tracing_subscriber::subscribe::{CollectExt, Context, Subscribe};
 use tv_harness::fexpr::*;
 
-thread_local! { static RECV: RefCell<Vec<usize>> = const { RefCell::new(Vec::new()) }; }
+thread_local! {
+    static RECV: RefCell<Vec<usize>> = const { RefCell::new(Vec::new()) };
+    /// every notification kind, for the wrapper-transparency stream (C09): "<layer>:<kind>"
+    static FULL: RefCell<Vec<String>> = const { RefCell::new(Vec::new()) };
+}
+fn full(n: usize, k: &str) { FULL.with(|f| f.borrow_mut().push(format!("{}:{}", n, k))); }
 
-struct Rec(usize);
+#[derive(Clone, Copy)]
+enum RecKind { Plain, MetaVeto(usize), EventVeto(usize), Never(usize) }
+struct Rec(usize, RecKind);
+fn rec(n: usize) -> Rec { Rec(n, RecKind::Plain) }
+fn rank(l: &tracing::Level) -> usize {
+    match *l { tracing::Level::ERROR => 1, tracing::Level::WARN => 2, tracing::Level::INFO => 3, tracing::Level::DEBUG => 4, _ => 5 }
+}
 impl<C: tracing::Collect + for<'a> tracing_subscriber::registry::LookupSpan<'a>> Subscribe<C> for Rec {
-    fn on_event(&self, _: &Event<'_>, _: Context<'_, C>) { RECV.with(|r| r.borrow_mut().push(self.0)); }
-    fn on_new_span(&self, _: &span::Attributes<'_>, _: &span::Id, _: Context<'_, C>) { RECV.with(|r| r.borrow_mut().push(self.0)); }
-    fn on_enter(&self, _: &span::Id, _: Context<'_, C>) { RECV.with(|r| r.borrow_mut().push(self.0)); }
-    fn on_exit(&self, _: &span::Id, _: Context<'_, C>) { RECV.with(|r| r.borrow_mut().push(self.0)); }
-    fn on_record(&self, _: &span::Id, _: &span::Record<'_>, _: Context<'_, C>) { RECV.with(|r| r.borrow_mut().push(self.0)); }
-    fn on_close(&self, _: span::Id, _: Context<'_, C>) { RECV.with(|r| r.borrow_mut().push(self.0)); }
+    fn on_register_dispatch(&self, _: &Dispatch) { full(self.0, "dispatch"); }
+    fn on_subscribe(&mut self, _: &mut C) { full(self.0, "subscribe"); }
+    fn register_callsite(&self, m: &'static Metadata<'static>) -> Interest {
+        full(self.0, "callsite");
+        match self.1 {
+            RecKind::MetaVeto(_) => Interest::sometimes(),
+            RecKind::Never(k) if rank(m.level()) > k => Interest::never(),
+            _ => Interest::always(),
+        }
+    }
+    fn enabled(&self, m: &Metadata<'_>, _: Context<'_, C>) -> bool {
+        full(self.0, "enabled");
+        match self.1 { RecKind::MetaVeto(k) | RecKind::Never(k) => rank(m.level()) <= k, _ => true }
+    }
+    fn event_enabled(&self, e: &Event<'_>, _: Context<'_, C>) -> bool {
+        full(self.0, "event_enabled");
+        match self.1 { RecKind::EventVeto(k) => rank(e.metadata().level()) <= k, _ => true }
+    }
+    fn on_follows_from(&self, _: &span::Id, _: &span::Id, _: Context<'_, C>) { full(self.0, "follows"); }
+    fn on_event(&self, _: &Event<'_>, _: Context<'_, C>) { full(self.0, "event"); RECV.with(|r| r.borrow_mut().push(self.0)); }
+    fn on_new_span(&self, _: &span::Attributes<'_>, _: &span::Id, _: Context<'_, C>) { full(self.0, "new_span"); RECV.with(|r| r.borrow_mut().push(self.0)); }
+    fn on_enter(&self, _: &span::Id, _: Context<'_, C>) { full(self.0, "enter"); RECV.with(|r| r.borrow_mut().push(self.0)); }
+    fn on_exit(&self, _: &span::Id, _: Context<'_, C>) { full(self.0, "exit"); RECV.with(|r| r.borrow_mut().push(self.0)); }
+    fn on_record(&self, _: &span::Id, _: &span::Record<'_>, _: Context<'_, C>) { full(self.0, "record"); RECV.with(|r| r.borrow_mut().push(self.0)); }
+    fn on_close(&self, _: span::Id, _: Context<'_, C>) { full(self.0, "close"); RECV.with(|r| r.borrow_mut().push(self.0)); }
 }
 
 fn take_recv() -> String {
@@ -34,37 +64,110 @@ fn take_recv() -> String {
 /// `registry().with(l0.and_then(l1).and_then(l2)…)`: the way stacks whose shape is only known at run
 /// time are built (every element boxed as `dyn Subscribe<Registry>`)
 fn build_stack(toks: &[&str]) -> Dispatch {
-    let mut it = parse_layers(toks).into_iter();
-    let mut acc: BoxS = it.next().expect("at least one layer");
-    for l in it {
-        acc = Box::new(acc.and_then(l));
+    let (cw, toks) = match toks.first() { Some(&"@box") => (1, &toks[1..]), Some(&"@arc") => (2, &toks[1..]), _ => (0, toks) };
+    let mut i = 0;
+    let acc = parse_group(toks, &mut i).expect("at least one layer");
+    let c = tracing_subscriber::registry().with(acc);
+    match cw {
+        1 => Dispatch::new(Box::new(c) as Box<dyn tracing::Collect + Send + Sync>),
+        2 => Dispatch::new(std::sync::Arc::new(c)),
+        _ => Dispatch::new(c),
     }
-    Dispatch::new(tracing_subscriber::registry().with(acc))
 }
 
-fn parse_layers(toks: &[&str]) -> Vec<BoxS> {
-    let mut layers: Vec<BoxS> = Vec::new();
-    let mut i = 0;
-    while i < toks.len() {
-        let t = toks[i];
-        match t.as_bytes()[0] {
-            b'P' => { layers.push(Box::new(Rec(t[1..].parse().unwrap()))); i += 1; }
-            b'G' => { layers.push(build_global(&t[1..])); i += 1; }
-            b'F' => {
-                let n: usize = t[1..].parse().unwrap();
-                let end = i + 1 + toks[i + 1..].iter().position(|x| *x == ".").expect("terminator");
-                let mut p = 0;
-                let f = build(&toks[i + 1..end], &mut p);
-                layers.push(Box::new(Rec(n).with_filter(f)));
-                i = end + 1;
-            }
-            _ => panic!("bad stack token {}", t),
-        }
+/// items up to a closing `)` or the end, composed left to right with `and_then`
+fn parse_group(toks: &[&str], i: &mut usize) -> Option<BoxS> {
+    let mut acc: Option<BoxS> = None;
+    while *i < toks.len() {
+        if toks[*i] == ")" { *i += 1; break; }
+        let l: BoxS = if toks[*i] == "(" {
+            *i += 1;
+            match parse_group(toks, i) { Some(g) => g, None => continue }
+        } else {
+            parse_layer(toks, i)
+        };
+        acc = Some(match acc { None => l, Some(a) => Box::new(a.and_then(l)) });
     }
-    layers
+    acc
+}
+
+/// pass-through wrappers named by prefixes of a layer token: `b:` Box again, `o:` Some(_), `v:` vec![_],
+/// `r:` reload::Subscriber, `i:` and_then(Identity); a token `none` is `None::<layer>`, `empty` is `Vec::new()`
+fn wrap(prefixes: &[&str], l: BoxS) -> BoxS {
+    let mut l = l;
+    for p in prefixes.iter().rev() {
+        l = match *p {
+            "b" => Box::new(l),
+            "o" => Box::new(Some(l)),
+            "v" => Box::new(vec![l]),
+            "r" => { let (s, h) = tracing_subscriber::reload::Subscriber::new(l); std::mem::forget(h); Box::new(s) }
+            "i" => Box::new(l.and_then(tracing_subscriber::subscribe::Identity::new())),
+            _ => panic!("bad wrapper prefix {}", p),
+        };
+    }
+    l
+}
+
+fn parse_layer(toks: &[&str], ip: &mut usize) -> BoxS {
+    let i = *ip;
+    let full_tok = toks[i];
+    if full_tok == "none" { *ip += 1; return Box::new(None::<BoxS>); }
+    if full_tok == "empty" { *ip += 1; return Box::new(Vec::<BoxS>::new()); }
+    let parts: Vec<&str> = full_tok.split(':').collect();
+    let (prefixes, t) = (&parts[..parts.len() - 1], parts[parts.len() - 1]);
+    let veto = |t: &str| -> (usize, usize) { let mut it = t[1..].split('l'); (it.next().unwrap().parse().unwrap(), it.next().unwrap().parse().unwrap()) };
+    match t.as_bytes()[0] {
+        b'P' => { *ip += 1; wrap(prefixes, Box::new(rec(t[1..].parse().unwrap()))) }
+        b'M' => { *ip += 1; let (n, k) = veto(t); wrap(prefixes, Box::new(Rec(n, RecKind::MetaVeto(k)))) }
+        b'E' => { *ip += 1; let (n, k) = veto(t); wrap(prefixes, Box::new(Rec(n, RecKind::EventVeto(k)))) }
+        b'N' => { *ip += 1; let (n, k) = veto(t); wrap(prefixes, Box::new(Rec(n, RecKind::Never(k)))) }
+        b'G' => { *ip += 1; wrap(prefixes, build_global(&t[1..])) }
+        b'F' => {
+            let n: usize = t[1..].parse().unwrap();
+            let end = i + 1 + toks[i + 1..].iter().position(|x| *x == ".").expect("terminator");
+            let mut p = 0;
+            let f = build(&toks[i + 1..end], &mut p);
+            *ip = end + 1;
+            wrap(prefixes, Box::new(rec(n).with_filter(f)))
+        }
+        _ => panic!("bad stack token {}", t),
+    }
+}
+
+fn full_take() -> String {
+    FULL.with(|f| { let v = f.borrow().join(","); f.borrow_mut().clear(); if v.is_empty() { "-".into() } else { v } })
+}
+
+/// `W <stackA> ;; <stackB> ;; ops`: the same workload through both stacks; prints both full notification logs
+fn run_pair(line: &[&str], uni: &[&'static Metadata<'static>]) -> String {
+    let s1 = line.iter().position(|t| *t == ";;").expect(";;");
+    let s2 = s1 + 1 + line[s1 + 1..].iter().position(|t| *t == ";;").expect("second ;;");
+    let mut logs = Vec::new();
+    for stack in [&line[1..s1], &line[s1 + 1..s2]] {
+        FULL.with(|f| f.borrow_mut().clear());
+        if stack.iter().all(|t| ["none", "empty", "(", ")", "@box", "@arc"].contains(t)) { logs.push("-".to_string()); continue; }
+        let d = build_stack(stack);
+        let dd = d.clone();
+        tracing::dispatch::with_default(&dd, || run_ops(&d, &line[s2 + 1..], uni));
+        drop(dd);
+        logs.push(full_take());
+    }
+    format!("{} || {}", logs[0], logs[1])
 }
 
 fn run_case(line: &[&str], uni: &[&'static Metadata<'static>]) -> String {
+    if line[0] == "W" { return run_pair(line, uni); }
+    if line[0] == "N" {
+        // `N <stack> ;; ops`: the full notification log of one stack
+        let sep = line.iter().position(|t| *t == ";;").expect(";;");
+        FULL.with(|f| f.borrow_mut().clear());
+        if line[1..sep].iter().all(|t| ["none", "empty", "(", ")", "@box", "@arc"].contains(t)) { return "-".into(); }
+        let d = build_stack(&line[1..sep]);
+        let dd = d.clone();
+        tracing::dispatch::with_default(&dd, || run_ops(&d, &line[sep + 1..], uni));
+        drop(dd);
+        return full_take();
+    }
     let sep = line.iter().position(|t| *t == ";;").expect(";;");
     let d = build_stack(&line[..sep]);
     let dd = d.clone();
@@ -117,9 +220,15 @@ fn run_ops(d: &Dispatch, ops: &[&str], uni: &[&'static Metadata<'static>]) -> St
                         _ => { d.try_close(id.clone()); }
                     }
                     outs.push(format!("l:{}", take_recv()));
+                    if op[0] == "cl" { spans.remove(&k); }
                 } else {
                     outs.push("l:".into());
                 }
+            }
+            "ff" => {
+                let (k, j): (usize, usize) = (op[1].parse().unwrap(), op[2].parse().unwrap());
+                if let (Some(a), Some(b)) = (spans.get(&k), spans.get(&j)) { d.record_follows_from(a, b); }
+                outs.push(format!("l:{}", take_recv()));
             }
             _ => outs.push("bad-op".into()),
         }
